@@ -1310,6 +1310,24 @@ def _into(out, r):
     return out
 
 
+def _binary_ufunc(op, real):
+    """np.add / subtract / multiply / true_divide as functions (with out=) when symbolic data or a model array takes part"""
+    def f(a, b, out=None, **kw):
+        if _sym(a) or _sym(b) or isinstance(a, SArr) or isinstance(b, SArr) or isinstance(out, SArr):
+            left = _A(a) if (isinstance(a, (list, tuple, _np.ndarray)) and not isinstance(a, SArr)) else a
+            return _into(out, op(left, b))
+        return _wrap(real(a, b, **kw)) if out is None else real(a, b, out=out, **kw)
+    f.__name__ = real.__name__
+    return f
+
+
+import operator as _operator  # noqa: E402
+add = _binary_ufunc(_operator.add, _np.add)
+subtract = _binary_ufunc(_operator.sub, _np.subtract)
+multiply = _binary_ufunc(_operator.mul, _np.multiply)
+true_divide = divide = _binary_ufunc(_operator.truediv, _np.true_divide)
+
+
 def minimum(a, b, out=None):
     if _sym(a) or _sym(b):
         c = a < b
